@@ -540,4 +540,28 @@ Section BTop.
     - destruct R as [x [A [B [C D]]]]. exists x. split; [exact A|]. split; [exact B|]. subst s.
       apply (binv_window lines t0); assumption.
   Qed.
+  Lemma zlength_zero_nil : forall A (l : list A), zlength l = 0 -> l = [].
+  Proof. intros A l H. destruct l; [reflexivity|]. unfold zlength in H. cbn [length] in H. lia. Qed.
+
+  (* a successful parse has handed the WHOLE input to the callback, byte for byte, and left nothing in the buffer *)
+  Lemma ok_callback_whole_thm : forall lines t0 sch inp p s, zlength inp = input_len lines t0 ->
+    drive L llen PS init_ps recog bump lineno lines t0 sch = Ret (ROk p, s) ->
+    exists x, biter (Pos.to_nat (fuel_for L llen lines t0)) (binit L PS (init_st lines t0 sch) inp) = BDone (ROk p) x /\
+              x_s x = s /\ x_cb x = inp /\ bdata (x_b x) = [] /\ x_in x = [].
+  Proof.
+    intros lines t0 sch inp p s H D.
+    destruct (drive_fin L llen PS init_ps recog bump lineno llen_pos lines t0 sch) as [r' [s' [D' F]]].
+    rewrite D in D'. inversion D'; subst r' s'. clear D'.
+    destruct F as [_ [_ [Fa [Fu _]]]].
+    unfold Model.drive in D.
+    pose proof (reach_inv lines t0 sch inp (fuel_for L llen lines t0) H) as R. cbv zeta in R.
+    destruct (iter_pos (fuel_for L llen lines t0) (init_st lines t0 sch)) as [s1|r1 s1|t1]; try discriminate.
+    inversion D; subst r1 s1. clear D.
+    destruct R as [x [B [E [I W]]]]. exists x. split; [exact B|]. split; [exact E|].
+    destruct I as [I1 I2 I3 I4 I5]. rewrite E in *.
+    pose proof (bdata_length _ I2) as HL. rewrite <- avail_idx, I1, Fa in HL.
+    rewrite Fu in I4.
+    apply zlength_zero_nil in HL. apply zlength_zero_nil in I4.
+    rewrite HL, I4, !app_nil_r in I3. repeat split; assumption.
+  Qed.
 End BTop.
